@@ -211,7 +211,13 @@ def gen_frame(rng, tier, big=False):
         n = rng.randint(301, 1000)
     ncols = rng.randint(2, 8 if n <= 300 else (5 if n <= 1000 else 3))
     cols, kinds = [], []
-    for _ in range(ncols - 1):
+    if big:
+        # an id-like column: all values distinct, digit-only, different lengths (lexicographic != numeric order)
+        ids = [str(v) for v in rng.sample(range(0, rng.choice([n + 5, 10 ** 5, 10 ** 9])), n)]
+        cols.append(ids)
+        kinds.append("ids")
+        ncols = max(ncols, 3)
+    for _ in range(ncols - 1 - len(cols)):
         c, kd = new_column(rng, n, cols)
         cols.append(c)
         kinds.append(kd)
@@ -245,7 +251,9 @@ def gen_frame(rng, tier, big=False):
     # cost guard for the Coq evaluation (insertion sort of the categories: ~ n * distinct per column)
     limit = 7e6 if tier == "quick" else 2e7
     while sum(len(c) * len(set(c)) for c in cols) > limit and len(cols) > 2:
-        drop = max((i for i in range(len(cols)) if i != pos), key=lambda i: len(set(cols[i])))
+        drop = max((i for i in range(len(cols)) if i != pos and kinds[i] != "ids"), key=lambda i: len(set(cols[i])), default=None)
+        if drop is None:
+            break
         del cols[drop], names[drop], kinds[drop]
         if drop < pos:
             pos -= 1
@@ -349,12 +357,12 @@ def model_eval(frames):
         plist.append(pairs)
         cols = "[" + "; ".join(vlib.strlist(c) for c in fr["cols"]) + "]"
         ps = "[" + "; ".join("(%d, %d)" % p for p in pairs) + "]"
-        exprs.append("C05_model (%s, %s%%nat)" % (cols, ps))
+        exprs.append("C05_enc (C05_model (%s, %s%%nat))" % (cols, ps))
     vals = vlib.coq_eval("C05", HEADER, exprs, shard=1 if len(exprs) <= 48 else 2, jobs=12, timeout=1500) if exprs else []
     out = {}
     for k, pairs, v in zip(keys, plist, vals):
         codes, qs = v
-        out[k] = ([list(map(int, c)) for c in codes], {p: Fraction(q) for p, q in zip(pairs, qs)})
+        out[k] = ([list(map(int, c)) for c in codes], {p: Fraction(int(q[0]), int(q[1])) for p, q in zip(pairs, qs)})
     return out
 
 
